@@ -114,3 +114,58 @@ func VerifC10Group() {
 	verifrt.Assert(total == 2, "batch-grouping-keeps-every-item-once")
 	verifrt.Reach("grouped")
 }
+
+// VerifC10Big: one large partition count (beyond 256): the batch path and the
+// single path agree with the reference owner for a symbolic id. The owner
+// index is concretised (one path per owner).
+func VerifC10Big() {
+	P := verifrt.Bound("p", 300)
+	const local = uint64(1)
+	placement := make([][]uint64, P)
+	for i := range placement {
+		placement[i] = []uint64{uint64(1000 + i)}
+	}
+	ds := verifDataset(local, 1, placement)
+	clients := make([]*verifDMClient, P)
+	for i := range clients {
+		clients[i] = &verifDMClient{node: uint64(1000 + i)}
+		ds.dataManagerClients[uint64(1000+i)] = clients[i]
+	}
+	var id uuid.UUID
+	for i := range id {
+		id[i] = verifrt.Byte("id")
+	}
+	p := ds.getPartitionForId(id)
+	idx := -1
+	for i := range ds.partitions {
+		if ds.partitions[i] == p {
+			idx = i
+		}
+	}
+	var lo, hi uint64
+	for i := 0; i < 8; i++ {
+		lo |= uint64(id[i]) << (8 * uint(i))
+		hi |= uint64(id[8+i]) << (8 * uint(i))
+	}
+	n := uint64(P)
+	verifrt.Assert(uint64(idx) == ((lo%n)+(hi%n))%n, "owner-equals-reference-function")
+	item := &pb.BatchItem{Id: id.Bytes(), Value: []float32{1}}
+	switch verifrt.Choose("op", 4) {
+	case 0:
+		ds.BatchInsert(context.Background(), []*pb.BatchItem{item})
+	case 1:
+		ds.BatchUpdate(context.Background(), []*pb.BatchItem{item})
+	case 2:
+		ds.BatchRemove(context.Background(), []*pb.BatchItem{item})
+	case 3:
+		ds.Insert(context.Background(), id, []float32{1}, nil)
+	}
+	for i, c := range clients {
+		if i == idx {
+			verifrt.Assert(len(c.calls) == 1, "owner-replica-called-exactly-once")
+		} else {
+			verifrt.Assert(len(c.calls) == 0, "no-other-partition-contacted")
+		}
+	}
+	verifrt.Reach("big-routed")
+}
